@@ -55,6 +55,10 @@ def gen_history(rnd, nact):
             acts.append(("edit", "normal", 0, None))
         elif r < 0.72:
             acts.append(("edit", "errno", rnd.random(), rnd.choice(["EIO", "ENOSPC", "EACCES", "EXDEV"])))
+        elif r < 0.73:
+            # stdout is a pipe whose reader has gone away (`breadlog | head`): the k-th log line fails with EPIPE and the
+            # process ends by a panic that unwinds - an abnormal end that is neither a kill nor a handled error
+            acts.append(("edit", "epipe", rnd.random(), None))
         elif r < 0.76:
             acts.append(("edit", "signal", rnd.random(), rnd.choice(["TERM", "INT"])))
         elif r < 0.80:
@@ -196,7 +200,7 @@ def run_history(built, acts, structured, record=False):
                     # measure this run's operations on a scratch copy, then address op k by fraction (biased to the insertion pass)
                     with core.Box(tag="c02k") as sb:
                         shutil.copytree(w.box.proj, sb.proj, dirs_exist_ok=True)
-                        r0 = core.run_breadlog(built, sb, os.path.join(sb.proj, "Breadlog.yaml"), shim=True)
+                        r0 = core.run_breadlog(built, sb, os.path.join(sb.proj, "Breadlog.yaml"), shim=True, stdio_ops=(how == "epipe"))
                         ops0 = r0.shim or []
                     K = len(ops0)
                     firstw = next((o["n"] for o in ops0 if o["kind"] == "openw"), 1)
@@ -207,6 +211,10 @@ def run_history(built, acts, structured, record=False):
                         cand = [o["n"] for o in ops0 if o["n"] >= k and o["kind"] in ("openw", "write", "rename")]
                         k = cand[0] if cand else k
                         rules = "n=%d,act=errno:%d" % (k, fault.ERRNO[arg])
+                    elif how == "epipe":
+                        cand = [o["n"] for o in ops0 if o["n"] >= k and o["kind"] == "stdio"] or [o["n"] for o in ops0 if o["kind"] == "stdio"][-1:]
+                        k = cand[0] if cand else k
+                        rules = "n=%d,kind=stdio,act=errno:%d" % (k, fault.ERRNO["EPIPE"])
                     elif how == "short":
                         rules = "from=%d,kind=write,act=short" % k
                     elif how == "signal":
@@ -214,7 +222,7 @@ def run_history(built, acts, structured, record=False):
                     else:
                         rules = "n=%d,act=%s" % (k, how)
                 before_pairs = set(w.scan())
-                rec = core.run_breadlog(built, w.box, w.cfg, rules=rules, shim=True)
+                rec = core.run_breadlog(built, w.box, w.cfg, rules=rules, shim=True, stdio_ops=(how == "epipe"))
                 stats["runs"] += 1
                 fired = [o for o in (rec.shim or []) if o["fired"]]
                 # temp dir is cleaned between runs (leftovers of a killed run are not this property's business)
